@@ -64,4 +64,11 @@ CLAIMS = {
        "sequences of real operations over the in-memory transport with a replying server, request bytes captured, read by an independent BER reader, SET OF members sorted, compared with the extracted model; an "
        "independent RFC 4511 request reader compares each request with the call's arguments.",
   note=COMMON_NOTE + "HashSet iteration order is abstracted (SET OF compared as sorted lists). GSSAPI/NTLM binds are not compiled in. Timeouts do not reach the wire (their effect is C12's)."),
+ "C19": dict(
+  text="Proved for the model of the control / exop codecs: request values are read back by RFC readers as the struct's fields (PagedResults, SyncRequest, Pre/PostRead, PasswordModify, EndTxn; Assertion is the BER of the parsed filter); "
+       "criticality defaults and make_critical; the model's OIDs and filter tag numbers equal the constants declared in /repo's source on this run (c19_consts_agree_with_source over the regenerated gen/Consts.v); "
+       "response parsers return the encoded fields from ANY definite-length encoding of the value: PagedResults, SyncState, SyncDone, the four SyncInfo alternatives with their DEFAULT flags, Pre/PostRead entry (reduced to C15), "
+       "WhoAmI / StartTxn (UTF-8 octets), PasswordModify. Tie to the code: every struct with boundary sizes and cookies up to 70000 bytes -> OID/criticality/value bytes vs the extracted model; spec-encoded response values "
+       "with random length forms -> parsed structs vs the model; an independent encoder/reader written from the RFCs is the oracle for each kind.",
+  note=COMMON_NOTE + "Translator trusted for the constants table. MatchedValues is modelled and compared (its string grammar is the library's, RFC 3876 items); ProxyAuth/TxnSpec/ManageDsaIT/RelaxRules carry raw or no values. EndTxnResp is outside the property."),
 }
